@@ -301,6 +301,48 @@ def visGate (st : St) (vecs : List (Nat × List Rat)) (sc e : Nat) (ds : List De
    flag (tracks.any (fun t => t.vcount < st.minLen)) "track-below-minimal-length" ++
    flag (rows.any (fun (_, _, ne, _, _, g, _, _) => g && ne == 0)) "all-features-over-threshold")
 
+/-! ### exact ties between appearance vote weights
+The best-fit voting sorts the claims by weight with a stable sort over a hash-map order, so among
+claims of exactly equal weight any order may result. The model is deterministic given the order of
+the distance table (stable sort over first-appearance order); the set of outcomes under ties is the
+set of model outcomes over the orders of the table. The driver therefore re-reads the table in every
+order of the tied claims (at most 4 tied claims per scene, else the base order only). -/
+/-- the groups of claims (detection, track) with exactly equal weight (groups of at least two) -/
+def tieGroups (cfg : Cfg) (ves : List VEntry) : List (List (Nat × Nat)) :=
+  let cs := Voting.cands Nms.F32_MAX cfg.minVotes (featStream ves)
+  let ws := (cs.map (·.weight)).eraseDups
+  (ws.map (fun w => (cs.filter (fun c => c.weight == w)).map (fun c => (c.q - QBASE, c.w)))).filter (fun g => g.length ≥ 2)
+
+def tieKeys (cfg : Cfg) (ves : List VEntry) : List (Nat × Nat) := (tieGroups cfg ves).flatMap id
+
+def insertEverywhere {α : Type} (x : α) : List α → List (List α)
+  | [] => [[x]]
+  | y :: ys => (x :: y :: ys) :: (insertEverywhere x ys).map (y :: ·)
+
+def permsOf {α : Type} : List α → List (List α)
+  | [] => [[]]
+  | x :: xs => (permsOf xs).flatMap (insertEverywhere x)
+
+def cartesian {α : Type} : List (List α) → List (List α)
+  | [] => [[]]
+  | l :: rest => let r := cartesian rest; l.flatMap (fun x => r.map (x :: ·))
+
+def tableVariants (cfg : Cfg) (ves : List VEntry) (picks : List Pick) : List (List VEntry) :=
+  let groups := tieGroups cfg ves
+  if groups.isEmpty then [ves] else
+  let keys := groups.flatMap id
+  let isTie (x : VEntry) : Bool := keys.contains (x.det, x.tid)
+  let reorder (order : List (Nat × Nat)) : List VEntry :=
+    order.flatMap (fun k => ves.filter (fun x => x.det == k.1 && x.tid == k.2)) ++ ves.filter (fun x => !isTie x)
+  -- the order suggested by the implementation's own outcome: the claims it awarded first
+  let awarded (k : Nat × Nat) : Bool := (picks.getD k.1 (.fresh 0)) == .cont k.2 true
+  let takenTracks := (keys.filter awarded).map (·.2)
+  -- then the claims on tracks that were awarded to somebody else (they lose whatever comes after), then the rest
+  let guided := reorder (keys.filter awarded ++ keys.filter (fun k => !awarded k && takenTracks.contains k.2) ++
+                         keys.filter (fun k => !awarded k && !takenTracks.contains k.2))
+  if groups.any (fun g => g.length > 4) || groups.length > 3 then [guided, ves] else
+  guided :: (cartesian (groups.map permsOf)).map (fun orders => reorder (orders.flatMap id))
+
 def handleNew (st : St) (args : List String) : St × String :=
   match args with
   | kind :: sh :: _vsh :: hist :: mi :: rest =>
@@ -344,6 +386,13 @@ def handlePredict (st : St) (args impl : List String) : St × String :=
     | some (scenes, tok', []) =>
       -- per scene: table and records from the implementation
       let vecs := st.featVecs ++ (if st.visual then scanFeats (nsT.toNat?.getD 0) st.nextTok rest else [])
+      -- identical feature vectors are one feature: the executor cannot tell them apart either (first token wins)
+      let canon (tok : Nat) : Nat :=
+        if tok == 0 then 0 else
+        match (vecs.find? (fun p => p.1 == tok)).map (·.2) with
+        | some v => ((vecs.find? (fun p => p.2 == v)).map (·.1)).getD tok
+        | none => tok
+      let scenes := scenes.map (fun (sc, ds) => (sc, ds.map (fun d => { d with feat := canon d.feat })))
       let rec gather : List (Nat × List Det) → List String → List (Nat × List Det × List Entry × List IRec × List VEntry × (Bool × Bool × List String)) → Option (List (Nat × List Det × List Entry × List IRec × List VEntry × (Bool × Bool × List String)))
         | [], _, acc => some acc.reverse
         | (sc, ds) :: more, ts, acc =>
@@ -388,12 +437,16 @@ def handlePredict (st : St) (args impl : List String) : St × String :=
         let vgK := gsV.all (fun (_, _, _, _, _, vg) => vg.1)
         let vgO := gsV.all (fun (_, _, _, _, _, vg) => vg.2.1)
         let vgFlags := (gsV.flatMap (fun (_, _, _, _, _, vg) => vg.2.2)).eraseDups
+        let runV (wp : List (Nat × List Det × List VEntry × List Pick)) : Option (Tracker.St × List (Nat × List Rec)) :=
+          if st.batch then predictBatchV st.cfg st.st wp
+          else match wp with
+            | [(sc, ds, ves, ps)] => (predictV st.cfg st.st sc ds ves ps).map (fun (s, r) => (s, [(sc, r)]))
+            | _ => none
+        let variantLists := withPicksV.map (fun (sc, ds, ves, ps) => (tableVariants st.cfg ves ps).map (fun v => (sc, ds, v, ps)))
+        let nVariants := (variantLists.map List.length).foldl (· * ·) 1
+        let combos := if nVariants ≤ 600 then cartesian variantLists else [withPicksV]
         let modelRes : Option (Tracker.St × List (Nat × List Rec)) :=
-          if st.visual then
-            (if st.batch then predictBatchV st.cfg st.st withPicksV
-             else match withPicksV with
-               | [(sc, ds, ves, ps)] => (predictV st.cfg st.st sc ds ves ps).map (fun (s, r) => (s, [(sc, r)]))
-               | _ => none)
+          if st.visual then combos.findSome? runV
           else if st.batch then predictBatch st.cfg st.st (withPicks.map (fun (sc, ds, es, ps, _) => (sc, ds, es, ps)))
           else match withPicks with
             | [(sc, ds, es, ps, _)] => (predict st.cfg st.st sc ds es ps).map (fun (s, r) => (s, [(sc, r)]))
@@ -420,6 +473,7 @@ def handlePredict (st : St) (args impl : List String) : St × String :=
           flag (st.st.live.any (fun t => t.gallery.length ≥ st.cfg.maxObs && st.cfg.visual)) "gallery-full" ++
           flag (gsV.any (fun (_, ds, _, _, _, _) => ds.any (fun d => d.feat != 0 && !d.collectOk))) "feature-not-collectable" ++
           flag ((st.st.live.map (·.scene)).eraseDups.length ≥ 2) "multi-scene-store" ++
+          flag (nVariants > 1) "appearance-weight-tie" ++
           flag (gs.any (fun (_, _, es, _) => !AssignX.small (es.map (fun x => { q := x.det + 1, t := x.tid, w := x.w })))) "large-assignment-dp"
         -- on small instances the dynamic programme must agree with the exhaustive enumeration
         let dpOk := gs.all (fun (_, _, es, _) =>
@@ -432,7 +486,7 @@ def handlePredict (st : St) (args impl : List String) : St × String :=
           -- the implementation's outcome is not an outcome of the model: the choice is not a valid
           -- (admissible, gated, one-to-one, maximum-weight, fresh-id) resolution for the distances at hand
           ({ st with nextTok := tok', featVecs := vecs }, res false false (flags ++ ["invalid-choice"])
-            s!"choice not valid: picks={withPicks.map (fun (p : Nat × List Det × List Entry × List Pick × List IRec) => (p.1, p.2.2.1.map (fun (e : Entry) => (e.det, e.tid, e.w)), repr p.2.2.2.1))}")
+            s!"choice not valid (table orders tried: {combos.length}; tie keys {withPicksV.map (fun (_, _, ves, _) => tieKeys st.cfg ves)}; decided {withPicksV.map (fun (_, _, ves, _) => visualDecided st.cfg ves)}): picks={withPicks.map (fun (p : Nat × List Det × List Entry × List Pick × List IRec) => (p.1, p.2.2.1.map (fun (e : Entry) => (e.det, e.tid, e.w)), repr p.2.2.2.1))}")
         | some (st', mrecs) =>
           let kRecs := gs.all (fun (sc, _, _, rs) => match mrecs.find? (fun p => p.1 == sc) with
             | some (_, mr) => mr.length == rs.length && (mr.zip rs).all (fun (m, i) => recEq m i)
